@@ -868,6 +868,35 @@ impl Mon {
 	}
 
 	fn c12(&mut self, fam: &str, b: &[u8], rd: &Reading, text: Option<&str>, rs: &PRes, want_strict: bool) {
+		// a document with surrogate escapes that is accepted under an option value, read from a source that
+		// fails at character k and would go on afterwards: the only possible outcome is that stream error
+		if let Some(s) = text {
+			if !rd.sur.is_empty() && s.len() <= 200 && (fam == "surrogate-element-sequences" || self.tick % 4 == 2) {
+				let nchars = s.chars().count();
+				for o in Opts::ALL {
+					if !rd.accepts(o) {
+						continue;
+					}
+					let ks: Vec<usize> = if nchars <= 24 { (0..=nchars).collect() } else { (0..4).map(|_| self.rng.below(nchars + 1)).collect() };
+					for k in ks {
+						let off = s.char_indices().nth(k).map(|x| x.0).unwrap_or(s.len());
+						let r = real::parse_with_stream_error(s, k, o);
+						self.rep.count("stream_error_injections_under_options", 1);
+						if r != Err(PErr::Stream(off)) {
+							self.viol(
+								"C12",
+								"stream-error-under-options",
+								fam,
+								format!("under truncated={},invalid={} a source failing after {} characters (byte {}) gives {:?}, expected Stream({})", o.truncated, o.invalid, k, off, r.as_ref().map(|_| "Ok"), off),
+								b,
+								json!({"entry": "parse_utf8_with", "fail_at": k, "options": [o.truncated, o.invalid]}),
+							);
+							break;
+						}
+					}
+				}
+			}
+		}
 		for o in Opts::ALL {
 			let r = if o == Opts::STRICT { rs.clone() } else { real::parse_slice_with(b, o) };
 			let want = rd.accepts(o);
